@@ -610,6 +610,13 @@ func c11Run(c *sim.Ctx) {
 	if mon.sentTotal != mid {
 		c.Fail("termination", "termination/"+cs.Variant+"/never-stops", "automaton in state %s still sends after %d restart periods of silence", m.State(), maxcfg+2)
 	}
+	// "stops": after a silence longer than the whole retransmission budget the
+	// automaton must have given up, not merely fallen silent in a negotiating or
+	// terminating state with no timer running
+	switch m.State() {
+	case "Req-Sent", "Ack-Rcvd", "Ack-Sent", "Closing", "Stopping":
+		c.Fail("termination", "termination/"+cs.Variant+"/stuck-"+m.State(), "after %d restart periods of silence the automaton is still in %s and sends nothing: it never stops", maxcfg+7, m.State())
+	}
 	check("silence", false)
 	if pool != nil && pool.allocs > 1 && pool.releases == 0 {
 		c.S.Probe("ipcp_pool_multi_alloc")
